@@ -562,7 +562,7 @@ def static_hint_soundness(ctx, R):
                 filters = A.VecV([flt(i, op, v is None) for i, (op, v) in enumerate(fs)])
                 args = M.MapV([("v%d" % i, val(v)) for i, (op, v) in enumerate(fs) if v is not None])
                 ip = A.Interp(C, I, max_steps=200000)
-                res = A.deref(ip.call_fn(f, [M.to_iter(filters), args, nullable]))
+                res = A.deref(ip.call_by_type(f, [("Iterator", M.to_iter(filters)), ("BTreeMap", args), ("bool", nullable)]))
                 n += 1
                 if res.variant == "None":
                     none_n += 1
@@ -603,7 +603,7 @@ def static_hint_soundness(ctx, R):
             fold = A.Struct(IRp + "IRFold", {"post_filters": A.VecV(post)})
             args = M.MapV([("v%d" % i, val(v)) for i, (op, v) in enumerate(fs)])
             ip = A.Interp(C, I, max_steps=200000)
-            says = ip.truth(ip.call_fn(g, [args, fold]))
+            says = ip.truth(ip.call_by_type(g, [("BTreeMap", args), ("IRFold", fold)]))
             nf += 1
             if says:
                 for c in counts:
